@@ -613,7 +613,11 @@ def register4(E):
         if name == 'rev': return It('list', l=xs[::-1], pos=0)
         raise EngineError('adaptor ' + name)
     @R(r'as IntoIterator>::into_iter$')
-    def _(e, c, a): return it_of(a[0])
+    def _(e, c, a):
+        x0 = deref(a[0])
+        if isinstance(x0, Agg) and not isinstance(a[0], Ref) and x0.ty and x0.ty not in ('arr', 'tup') and 'Range' not in x0.ty and E._find_impl('next', 'Iterator', x0.ty, 1) is not None:
+            return a[0]                      # a crate type that is itself an Iterator: into_iter is the identity
+        return it_of(a[0])
     # ---------------------------------------------------------------- HashSet / BTreeSet (list without duplicates)
     SET = r'^(std::collections::)?(HashSet|BTreeSet)::<.*>::'
     def sl_(x): return deref(x).l
@@ -714,3 +718,79 @@ def register4(E):
             else: bm, i = en.f
             return Ref(bm.items[i][1], 0)
         raise EngineError('entry kind ' + str(en.ty))
+
+def register_path(E):
+    """std::path on unix, as byte strings: Path/OsStr = str bytes; PathBuf = Vec('PathBuf'); Component = Enum.
+    Documented semantics of Path::components(): repeated separators and interior/trailing `.` are dropped, a leading `.` is kept
+    for relative paths, `..` is ParentDir, a leading `/` is RootDir."""
+    R = lambda rx: (lambda f: (E.models.insert(0, (re.compile(rx), f)), f)[1])
+    bl = E.bl
+    def pbytes(x):
+        l, lo, hi = bl(x); return l[lo:hi]
+    def pref(b): return Ref([Str(list(b))], 0)
+    def truth(c): return E.branch(c)
+    def components(b):
+        out = []; n = len(b); i = 0
+        has_root = n > 0 and truth(b[0] == 47)
+        if has_root: out.append(Enum('RootDir', [], 'Component'))
+        first = True
+        while i < n:
+            if truth(b[i] == 47): i += 1; continue
+            j = i
+            while j < n and not truth(b[j] == 47): j += 1
+            comp = b[i:j]
+            if len(comp) == 1 and truth(comp[0] == 46):
+                if first and not has_root: out.append(Enum('CurDir', [], 'Component'))
+            elif len(comp) == 2 and truth(comp[0] == 46) and truth(comp[1] == 46): out.append(Enum('ParentDir', [], 'Component'))
+            else: out.append(Enum('Normal', [pref(comp)], 'Component'))
+            first = False; i = j
+        return out
+    E.path_components = components
+    @R(r'^(std::path::)?Path::new::<|as AsRef<(std::path::)?Path>>::as_ref$|as AsRef<(std::ffi::)?OsStr>>::as_ref$|^(std::path::)?Path::as_os_str$|^(std::path::)?PathBuf::as_path$|^<(std::path::)?PathBuf as Deref>::deref$|^(std::path::)?PathBuf::as_os_str$')
+    def _(e, c, a):
+        v = deref(a[0])
+        return a[0] if isinstance(a[0], Ref) and isinstance(v, (Str, Vec)) else pref(pbytes(a[0]))
+    @R(r'^(std::path::)?Path::components$')
+    def _(e, c, a): return It('list', l=components(pbytes(a[0])), pos=0)
+    @R(r'^(std::path::)?Component::<.*>::as_os_str$|^(std::path::)?Component::as_os_str$')
+    def _(e, c, a):
+        comp = deref(a[0])
+        if comp.v == 'Normal': return comp.f[0]
+        return pref({'RootDir': [47], 'CurDir': [46], 'ParentDir': [46, 46]}[comp.v])
+    @R(r'^(std::ffi::)?OsStr::to_str$|^(std::path::)?Path::to_str$')
+    def _(e, c, a):
+        b = pbytes(a[0])
+        for x in b:
+            if not isinstance(x, int) and not E.branch(z3.ULT(x, 0x80)): raise EngineError('non-ASCII path bytes are outside the model')
+        return SOME(pref(b))
+    @R(r'^(std::ffi::)?OsStr::(len)$')
+    def _(e, c, a): return len(pbytes(a[0]))
+    @R(r'^(std::ffi::)?OsStr::(is_empty)$')
+    def _(e, c, a): return len(pbytes(a[0])) == 0
+    @R(r'^(std::ffi::)?OsStr::to_string_lossy$|^(std::path::)?Path::to_string_lossy$')
+    def _(e, c, a): return Enum('Borrowed', [pref(pbytes(a[0]))], 'Cow')
+    @R(r'^<&*(std::path::)?Path as PartialEq(<&*(std::path::)?Path>)?>::(eq|ne)$')
+    def _(e, c, a):
+        x, y = components(pbytes(a[0])), components(pbytes(a[1]))
+        r = len(x) == len(y) and all(p.v == q.v and (p.v != 'Normal' or E.branch(E.eq_val(p.f[0], q.f[0]))) for p, q in zip(x, y))
+        return r if not c.endswith('ne') else not r
+    @R(r'^<(std::ffi::)?OsStr as PartialEq<(str|&str|String)>>::(eq|ne)$|^<(std::ffi::)?OsStr as PartialEq>::(eq|ne)$')
+    def _(e, c, a):
+        r = E.eq_val(pref(pbytes(a[0])), pref(pbytes(a[1])))
+        if c.endswith('ne'): return (not r) if isinstance(r, bool) else z3.Not(r)
+        return r
+    @R(r'^(std::path::)?PathBuf::(new|with_capacity)$')
+    def _(e, c, a): return Vec([], 'PathBuf')
+    @R(r'^(std::path::)?PathBuf::push::<')
+    def _(e, c, a):
+        buf = deref(a[0]); p = pbytes(a[1])
+        if p and truth(p[0] == 47): buf.l[:] = list(p); return UNIT              # absolute argument replaces the buffer
+        if buf.l and not truth(buf.l[-1] == 47): buf.l.append(47)
+        buf.l.extend(p); return UNIT
+    @R(r'^<(std::path::)?PathBuf as From<&(std::path::)?Path>>::from$|^<&(std::path::)?Path as Into<(std::path::)?PathBuf>>::into$|^(std::path::)?Path::to_path_buf$|^(std::path::)?Path::to_owned$')
+    def _(e, c, a): return Vec(list(pbytes(a[0])), 'PathBuf')
+    @R(r'^(std::path::)?Path::is_absolute$|^(std::path::)?Path::has_root$')
+    def _(e, c, a):
+        b = pbytes(a[0]); return bool(b) and truth(b[0] == 47)
+    @R(r'as Iterator>::fuse$')
+    def _(e, c, a): return a[0] if isinstance(a[0], It) else E.it_of(a[0])
